@@ -5,7 +5,7 @@ namespace HapVerif.Drv.Srp
 open HapVerif HapVerif.Srp
 
 def run (I P salt Bb : String) (a : String) : Client :=
-  client Crypto.sha512 hapGroup (ofHex I) (ofHex P) (ofHex salt) (ofHex Bb) a.toNat!
+  client RealCrypto.sha512 hapGroup (ofHex I) (ofHex P) (ofHex salt) (ofHex Bb) a.toNat!
 
 def handle : List String → Option String
   | ["srp.client", I, P, salt, Bb, a] =>
